@@ -159,6 +159,12 @@ def make_replica(rng, root, skel, layout, ops, shuffle_seed):
     r = common.rng_for('shuffle', shuffle_seed)
     for m in sorted(lay['mans']):
         r.shuffle(lay['mans'][m]['entries'])
+        # ... and the checksum fields of every line in another order as well
+        for e in lay['mans'][m]['entries']:
+            names = sorted(e.get('_auto') or e.get('sums') or [])
+            if len(names) > 1:
+                r.shuffle(names)
+                e['_sum_order'] = names
     gmutate.apply_ops(root, [o for o in ops if not o.get('after_render')])
     glayout.render(root, lay)
     return lay
